@@ -53,6 +53,10 @@ class UnquoteModel(object):
                         arg = st.value.args[0]
                         if isinstance(n.target, ast.Name):
                             self.itemvar = n.target.id
+                        if isinstance(arg, ast.Name):
+                            for prev in n.body[:i]:
+                                if isinstance(prev, ast.Assign) and isinstance(prev.targets[0], ast.Name) and prev.targets[0].id == arg.id:
+                                    arg = prev.value
                         if (
                             isinstance(arg, ast.Subscript)
                             and isinstance(arg.slice, ast.Slice)
@@ -64,17 +68,25 @@ class UnquoteModel(object):
             raise AnalysisError("quote._unquote_impl: loop with `b = HEX_TO_BYTE.get(item[:k])` not recognised")
         # single pass over split(b'%')[1:]
         self.single_pass = self._single_pass()
+        self.resvar = "res"
+        for n in walk_no_nested(self.fn):
+            if isinstance(n, ast.Assign) and isinstance(n.targets[0], ast.Name) and isinstance(n.value, ast.Call) and isinstance(n.value.func, ast.Name) and n.value.func.id == "bytearray":
+                self.resvar = n.targets[0].id
         self.leaves = []
-        self._walk(self.after, [])
-        if not self.leaves:
-            raise AnalysisError("quote._unquote_impl: no decision leaves found")
+        try:
+            self._walk(self.after, [])
+        except AnalysisError:
+            self.leaves = []
         # aliases such as `append = res.extend`
         self.aliases = {}
         for n in walk_no_nested(self.fn):
             if isinstance(n, ast.Assign) and isinstance(n.targets[0], ast.Name) and isinstance(n.value, ast.Attribute):
                 if n.value.attr in ("extend", "append") and isinstance(n.value.value, ast.Name):
                     self.aliases[n.targets[0].id] = n.value.attr
-        self.kinds = [self._classify(stmts) for conds, stmts in self.leaves]
+        try:
+            self.kinds = [self._classify(stmts) for conds, stmts in self.leaves]
+        except AnalysisError:
+            self.leaves, self.kinds = [], []
 
     def _single_pass(self):
         it = self.loop.iter
@@ -166,6 +178,47 @@ class UnquoteModel(object):
         return None
 
     def decision(self, byte, params):
+        """'decode' | 'keep' | 'other' for a byte value: the loop body is interpreted (finite domain) on every
+        hex spelling of the byte followed by a marker tail; 'decode' if any spelling is decoded."""
+        from .microeval import _Interp, Native, _Break, _Continue, _Return
+        table = self.repo.const(self.q, "HEX_TO_BYTE")
+        spellings = [k for k, v in table.items() if v == bytes([byte])]
+        if not spellings:
+            raise AnalysisError("HEX_TO_BYTE has no spelling for byte 0x%02X" % byte)
+        outcomes = set()
+        self.last_spelling = None
+        for sp in sorted(spellings):
+            item = sp + b"/t"
+            rec = bytearray()
+            env = dict(self.defaults)
+            env.update(params)
+            env[self.itemvar] = item
+            for alias, meth in self.aliases.items():
+                env[alias] = Native(getattr(rec, meth))
+            env[self.resvar] = rec
+            it = _Interp(self.repo, self.q, env, 0)
+            try:
+                it.block(self.loop.body)
+            except (_Break, _Continue):
+                pass
+            except _Return:
+                raise AnalysisError("quote._unquote_impl: return inside the decoding loop")
+            except Unknown as e:
+                raise AnalysisError("quote._unquote_impl: loop body not interpretable on %r: %s" % (item, e))
+            out = bytes(env[self.resvar]) if env[self.resvar] is not rec else bytes(rec)
+            if out == b"%" + item:
+                outcomes.add("keep")
+            elif out == bytes([byte]) + b"/t":
+                outcomes.add("decode")
+                self.last_spelling = sp
+            else:
+                outcomes.add("other:%r" % out)
+        bad = [o for o in outcomes if o.startswith("other")]
+        if bad:
+            return bad[0]
+        return "decode" if "decode" in outcomes else "keep"
+
+    def _decision_by_leaves(self, byte, params):
         """'decode' | 'keep' | 'drop' for byte value (0..255) under params dict."""
         env = dict(self.defaults)
         env.update(params)
@@ -185,7 +238,17 @@ class UnquoteModel(object):
         raise AnalysisError("quote._unquote_impl: no leaf taken for byte 0x%02X" % byte)
 
     def decoded_set(self, params):
-        return frozenset(b for b in range(256) if self.decision(b, params) == "decode")
+        out = set()
+        self.others = getattr(self, "others", {})
+        self.spelling = getattr(self, "spelling", {})
+        for b in range(256):
+            d = self.decision(b, params)
+            if d == "decode":
+                out.add(b)
+                self.spelling[b] = self.last_spelling
+            elif d != "keep":
+                self.others[b] = d
+        return frozenset(out)
 
 
 def unquote_bindings(repo):
